@@ -141,6 +141,40 @@ fn main() {
                 rep.engine("c16_cache_race").merge(cov);
                 rep.add_findings(finds);
             }
+            // registry-wide clear() on a second thread against take()
+            let n_reg = sc(40.0, 1200.0).max(1);
+            let outs = vh_common::parallel(jobs, move |wk| {
+                let mut cov = Coverage::default();
+                let mut finds = Vec::new();
+                let mut i = wk as u64;
+                while i < n_reg {
+                    let c = c16::registry_race(seed, i);
+                    cov.evaluations += 1;
+                    cov.events += c.events;
+                    let _ = cov.distinct.insert(c.hash);
+                    let _ = cov.nontrivial.insert(c.hash);
+                    let _ = cov.schedules.insert(c.hash);
+                    for (k, v) in &c.counters {
+                        cov.add(k, *v);
+                    }
+                    if !c.violations.is_empty() {
+                        cov.bump("violating_cases");
+                    }
+                    if let Some(v) = c.violations.first() {
+                        if finds.len() < 4 {
+                            finds.push(Finding { v: v.clone(), sig: format!("C16/c16_registry_race/{}", v.oracle), replay: c.desc.clone() });
+                        }
+                    } else if cov.samples.is_empty() {
+                        cov.sample(c.desc);
+                    }
+                    i += jobs as u64;
+                }
+                (cov, finds)
+            });
+            for (cov, finds) in outs {
+                rep.engine("c16_registry_race").merge(cov);
+                rep.add_findings(finds);
+            }
             std::process::exit(rep.finish(&args));
         }
         "C18" => {
